@@ -492,8 +492,14 @@ func termName(kind int, withData bool) string {
 		}
 		return "close-eof"
 	case simrt.TermReset:
+		if withData {
+			return "close-reset-with-data"
+		}
 		return "close-reset"
 	case simrt.TermTimeout:
+		if withData {
+			return "read-timeout-error-with-data"
+		}
 		return "read-timeout-error"
 	}
 	return "none"
